@@ -32,6 +32,7 @@ BlockFails(v, blk) ==
 
 HCodecFails(v, e) ==
   CASE e.k = "rt" -> BlockFails(v, e)
+    [] e.k = "wc" -> ZsFails(e.zs)
     [] e.k = "rd" -> DFails(v, e) \cup (IF e.out.r = "ok" /\ e.rw.r = "ok" THEN BlockFails(v, e.rw) ELSE {})
     [] OTHER -> {}
 =============================================================================
